@@ -360,7 +360,10 @@ def run(tier, seed):
         Money.register_currency(c)
     runs = []
     if tier == 'thorough':
-        runs.append(([(v, s) for v in V_ALL for s in S_ALL], 3))
+        v_mid = V_QUICK + ['y2021', 'm04', 'd16', 'badt13']
+        s_mid = S_QUICK + ['both']
+        runs.append(([(v, s) for v in V_ALL for s in S_ALL], 2))
+        runs.append(([(v, s) for v in v_mid for s in s_mid], 3))
         runs.append(([(v, s) for v in V_QUICK for s in S_QUICK], 4))
     else:
         k = seed % 3
